@@ -264,6 +264,22 @@ fn c12_cases(out: &mut Out, r: &mut Rng, max_len: usize) {
         let n = burst.len();
         run_scenario(out, Scenario { cfg: cfg.clone(), nclients: n, bursts: vec![burst], sentinel: false, tag: "c12".into(), pauses: vec![] });
     }
+    // servers with OTHER seeds created later in the same process (every harness shard): each must answer requests naming
+    // ITS OWN long-term key and no other — nothing a server is may be carried over from a server created before it
+    // (seeded change C12-r9: a process-wide cache of the unwrapped seed)
+    for k in 0..3u8 {
+        let mut seed2 = g.r.bytes(32);
+        seed2[0] = k; // (distinct from the first server's seed and from each other)
+        let srv2 = srv_of_seed(&seed2);
+        let cfg2 = RigCfg { seed: seed2, batch: 64, fault: 0, per_client: false, level: "off".into(), status: None };
+        let mut burst: Vec<(usize, Vec<u8>)> = vec![];
+        for (i, s) in [None, Some(srv2.clone()), Some(g.srv.clone()), Some(srv2.clone()), None, Some(g.srv.clone())].iter().enumerate() {
+            let nonce = g.r.bytes(32);
+            burst.push((i, ietf_request(&VER13, s.as_deref(), &nonce, 1024)));
+        }
+        let n = burst.len();
+        run_scenario(out, Scenario { cfg: cfg2, nclients: n, bursts: vec![burst], sentinel: false, tag: "c12-second-server".into(), pauses: vec![] });
+    }
 }
 
 /// Degenerate datagrams (no fields / one field / a required field missing, valid length and framing) sent right
